@@ -131,6 +131,7 @@ int main(int argc, char **argv) {
         else if (a == "--concrete") { concFile = nx(); opt.concrete = true; }
         else if (a == "--stop-on-first") opt.stopOnFirst = true;
         else if (a == "--no-dedup") opt.dedupFailures = 0;
+        else if (a == "--known") { std::string l = nx(); size_t p0 = 0; while (p0 <= l.size()) { size_t c = l.find(',', p0); if (c == std::string::npos) c = l.size(); if (c > p0) opt.knownIds.insert(l.substr(p0, c - p0)); p0 = c + 1; } }
         else if (a == "-v") opt.verbose = true;
         else if (a[0] != '-') modPath = a;
         else { usage(); return 2; }
@@ -198,6 +199,17 @@ int main(int argc, char **argv) {
             o << "},\"stack\":[";
             f2 = true; for (auto &l : f.stack) { if (!f2) o << ","; f2 = false; o << "\"" << jesc(l) << "\""; }
             o << "]}";
+        }
+    }
+    o << "],\n \"known_hits\":[";
+    {
+        bool first = true;
+        for (auto &kv : ex.knownHits) {
+            auto &f = kv.second;
+            if (!first) o << ","; first = false;
+            o << "\n  {\"id\":\"" << jesc(kv.first) << "\",\"kind\":\"" << jesc(f.kind) << "\",\"msg\":\"" << jesc(f.msg) << "\",\"loc\":\"" << jesc(f.loc) << "\",\"inputs\":{";
+            bool f2 = true; for (auto &kv2 : f.model) { if (!f2) o << ","; f2 = false; o << "\"" << jesc(kv2.first) << "\":\"" << jesc(kv2.second) << "\""; }
+            o << "}}";
         }
     }
     o << "]\n}\n";
